@@ -60,8 +60,10 @@ func (l *PythonBaseLexer) EmitToken(token antlr.Token) {
 		if l.firstTokenIndex == l.lastTokenIndex {
 			var newArray = make([]antlr.Token, len(buffer)*2)
 			destIndex := len(newArray) - (len(buffer) - l.firstTokenIndex)
-			copy(newArray, buffer)
-			copy(newArray, buffer[:len(buffer)-l.firstTokenIndex])
+			// keep the queue order: the entries before firstTokenIndex stay where they are, the entries
+			// from firstTokenIndex on (the oldest ones) move to the end of the enlarged ring
+			copy(newArray, buffer[:l.firstTokenIndex])
+			copy(newArray[destIndex:], buffer[l.firstTokenIndex:])
 
 			l.firstTokenIndex = destIndex
 			buffer = newArray
